@@ -496,6 +496,26 @@ def run(rep, facts, tier):
                 'roll-back gave back' % how, 'state::State::fetch_and_run', at)
     rep.floor('C10.R1 permanent run-time patches of an instruction', n_perm, 1)
 
+    # a word that sets a State field which no roll-back restores (a flag such as "the REPL is about to stop") does so after its
+    # last step that can fail with `?`: otherwise a word that fails - and with it the source, which is rejected - has had an effect
+    n_flag = 0
+    for fn in sorted(breach):
+        f = fx.fns.get(fn)
+        if f is None:
+            continue
+        for w in W.get(fn, []):
+            if w['how'] != 'assign' or w.get('elem') or len(w['field']) != 1 or w['field'][0] in RESOURCES:
+                continue
+            n_flag += 1
+            after = blocks_after(f, w['bb']) | {w['bb']}
+            q = [b for b in after if f.blocks[b]['term']['k'] == 'call' and callee_of(f.blocks[b]['term']) in FROM_RESIDUAL]
+            rep.add('C10.R1', 'C10.R1:written-before-refusal:%s:%s' % (fn, w['field'][0]), not q,
+                    'State.%s is assigned after the last `?` of %s' % (w['field'][0], short(fn)) if not q else
+                    '%s assigns State.%s and can still fail with `?` afterwards (%s): the rejected source has had an effect that no '
+                    'roll-back takes back - `#( exit #)` fails with a stack underflow and the REPL quits all the same'
+                    % (short(fn), w['field'][0], f.at(q[0])), fn, w['at'], nontrivial=False)
+    rep.floor('C10.R1 plain State field assignments reachable from a build entry', n_flag, 5)
+
     # context_close: every path from nested.pop() to return assigns ctx
     fx.need(close)
     cf = V(close)
